@@ -486,6 +486,7 @@ where
         #[cfg(delaunay_verif)]
         {
             crate::verif::tick::tick("locate.walk");
+            crate::verif::tick::iter("locate.walk", step + 1, MAX_STEPS);
             if crate::verif::knob::is_set("locate.max_steps")
                 && step >= crate::verif::knob::get("locate.max_steps", MAX_STEPS)
             {
